@@ -187,7 +187,7 @@ func cmdVerify(args []string) int {
 	}
 	// solve (identical scripts are solved once)
 	var wg sync.WaitGroup
-	sem := make(chan struct{}, 12)
+	sem := make(chan struct{}, 10)
 	first := map[string]*Obligation{}
 	for _, o := range all {
 		if o.Trivial {
@@ -216,8 +216,20 @@ func cmdVerify(args []string) int {
 		}
 	}
 	sort.Slice(retry, func(i, j int) bool { return retry[i].Name < retry[j].Name })
-	if len(retry) > 24 {
-		retry = retry[:24]
+	maxRetry, attempts := 8, 2
+	if *tier == "thorough" {
+		maxRetry, attempts = 32, 3
+	}
+	if len(retry) > maxRetry {
+		retry = retry[:maxRetry]
+	}
+	if os.Getenv("GOVC_NORETRY") != "" {
+		retry = nil
+	}
+	if os.Getenv("GOVC_SLOW") != "" {
+		for _, o := range retry {
+			fmt.Printf("retrying: %s (%s)\n", o.Name, o.Res.Answer)
+		}
 	}
 	if len(retry) > 0 {
 		slow := NewSolver(filepath.Join(outDir, "smt", pf.ID+"-retry"), timeout*3, seed+1)
@@ -229,9 +241,18 @@ func cmdVerify(args []string) int {
 			go func(o *Obligation) {
 				defer wg.Done()
 				defer func() { <-sem2 }()
-				r := slow.Solve(o.Script)
-				if r.Answer == "unsat" || r.Answer == "sat" {
-					o.Res = r
+				for attempt := 0; attempt < attempts; attempt++ {
+					sv := *slow
+					sv.Seed = seed + 1 + 7*attempt
+					sv.ByBackend, sv.SecBy = map[string]int{}, map[string]float64{}
+					r := sv.Solve(o.Script)
+					for k, v := range sv.SecBy {
+						slow.note(k, v, false)
+					}
+					if r.Answer == "unsat" || r.Answer == "sat" {
+						o.Res = r
+						break
+					}
 				}
 			}(o)
 		}
@@ -241,6 +262,9 @@ func cmdVerify(args []string) int {
 		}
 	}
 	// vacuity covers: per function/case, stop at the first satisfiable return path
+	coverSolver := NewSolver(filepath.Join(outDir, "smt", pf.ID+"-cover"), 3, seed)
+	coverSolver.QuickS = 3
+	coverSolver.NoRace = true
 	coverOK := map[string]string{}
 	var cmu sync.Mutex
 	byFn := map[string][]*Cover{}
@@ -263,7 +287,7 @@ func cmdVerify(args []string) int {
 				if i >= 6 {
 					break
 				}
-				r := solver.Solve(c.Script)
+				r := coverSolver.Solve(c.Script)
 				if r.Answer != "unsat" {
 					res = r.Answer
 					break
